@@ -50,6 +50,7 @@ properties! {
     "C09" => c09,
     "C11" => c11,
     "C13" => c13,
+    "C14" => c14,
     "C16" => c16,
     "C18" => c18,
 }
